@@ -116,9 +116,41 @@ pub struct ConcParams {
     pub snaps_per_reader: usize,
     pub dumps_per_snap: usize,
     pub step_cap: u64,
+    /// maintenance operations (compaction / index creation) issued by a second thread
+    /// concurrently with the writer's commits
+    #[serde(default)]
+    pub maintenance: Vec<Op>,
 }
 
 pub struct SnapshotCheck;
+
+/// No delete, no removal, no second write to the same (entity, key): compaction at any
+/// moment of such a history stays clear of the known compaction findings (F06-F10).
+fn append_only(ops: &[Op]) -> bool {
+    use crate::model::TOp;
+    let mut seen: std::collections::BTreeSet<String> = std::collections::BTreeSet::new();
+    for op in ops {
+        if let Op::Txn { ops, .. } = op {
+            for t in ops {
+                match t {
+                    TOp::DelNode { .. } | TOp::DelEdge { .. } | TOp::RemoveNodeProp { .. } | TOp::RemoveEdgeProp { .. } | TOp::RemoveLabel { .. } | TOp::AddLabel { .. } => return false,
+                    TOp::SetNodeProp { node, key, .. } => {
+                        if !seen.insert(format!("n{node}:{key}")) {
+                            return false;
+                        }
+                    }
+                    TOp::SetEdgeProp { src, rel, dst, key, .. } => {
+                        if !seen.insert(format!("e{src}:{rel}:{dst}:{key}")) {
+                            return false;
+                        }
+                    }
+                    _ => {}
+                }
+            }
+        }
+    }
+    true
+}
 
 struct SnapObs {
     reader: usize,
@@ -172,6 +204,19 @@ impl Check for SnapshotCheck {
             snaps_per_reader: rng.range(1, 4) as usize,
             dumps_per_snap: rng.range(1, 3) as usize,
             step_cap: 60_000,
+            maintenance: if rng.chance(0.5) {
+                (0..rng.range(1, 3))
+                    .map(|_| {
+                        if rng.chance(0.7) && append_only(&ops) {
+                            Op::Compact
+                        } else {
+                            Op::CreateIndex { label: rng.pick(&crate::model::LABELS).to_string(), prop: rng.pick(&crate::model::KEYS).to_string() }
+                        }
+                    })
+                    .collect()
+            } else {
+                Vec::new()
+            },
         };
         Case {
             property: "C03".into(),
@@ -277,6 +322,24 @@ impl Check for SnapshotCheck {
                 }),
             ));
         }
+        if !params.maintenance.is_empty() {
+            let slot = engine_slot.clone();
+            let mops = params.maintenance.clone();
+            let werr = writer_err.clone();
+            programs.push((
+                "maintenance".into(),
+                Box::new(move || {
+                    let engine = slot.lock().unwrap().clone().unwrap();
+                    let mut scratch = Model::default();
+                    for op in &mops {
+                        if let Err(e) = exec_shared(&engine, &mut scratch, op) {
+                            *werr.lock().unwrap() = Some(e);
+                            return;
+                        }
+                    }
+                }),
+            ));
+        }
         let slot2 = engine_slot.clone();
         let dir = sb.dir.clone();
         let mut open_err = None;
@@ -288,6 +351,13 @@ impl Check for SnapshotCheck {
                 }
                 Err(e) => open_err = Some(e),
             }
+        });
+        // final state (all threads done): must equal the model after the whole history
+        let final_dump = engine_slot.lock().unwrap().as_ref().map(|e| {
+            let world = World::new(&sb.dir, case.seed);
+            let _g = world.install();
+            let snap = e.snapshot();
+            dump_snapshot(&snap, probe)
         });
         *engine_slot.lock().unwrap() = None;
         if let Some(e) = open_err {
@@ -339,6 +409,22 @@ impl Check for SnapshotCheck {
             res.stats.inc("foreign_discrepancy");
             let _ = e;
             return res;
+        }
+        if let Some(fd) = &final_dump {
+            let want = states.last().unwrap();
+            if !fd.inv.is_empty() || fd.g != *want {
+                let mut diffs = fd.g.diff(want);
+                for (c, t) in &fd.inv {
+                    diffs.push((format!("inv:{c}"), t.clone()));
+                }
+                let detail: Vec<String> = diffs.iter().take(5).map(|(c, t)| format!("[{c}] {t}")).collect();
+                res.viols.push(Viol {
+                    class: format!("final_state:{}", classes_of(&diffs)),
+                    detail: format!("after all threads finished the database differs from the model: {}", detail.join("; ")),
+                    focus: None,
+                    schedule: schedule.clone(),
+                });
+            }
         }
         let evs = op_events.lock().unwrap().clone();
         let obs = observations.lock().unwrap();
